@@ -113,6 +113,11 @@ def run(res):
             col = gen_column(dt, rng, rows)
             fmt = "parquet" if dt in ("tsmicros", "tsnanos") else rng.choice(["csv-name", "csv-idx", "parquet", "csv-infer" if dt == "i64" else "csv-name"])
             chunk_size = rng.choice([1, 2, 7, max(1, rows - 1), rows, rows + 1, 1000000, rng.randint(1, rows + 5)])
+            if ci % 8 == 5:
+                # several chunks of more than a thousand rows each, chunk size unrelated to any reader batch size
+                rows = rng.randint(1100, 6000 if thorough else 4500)
+                col = gen_column(dt, rng, rows)
+                chunk_size = rng.choice([rows - 1, rows // 2 + 1, 1025, 1500, 2047, rng.randint(1025, rows - 1), rng.randint(1025, rows - 1)])
             if rows // chunk_size > 600:
                 chunk_size = max(chunk_size, rows // 300)
             level = rng.randint(0, 12)
